@@ -304,6 +304,13 @@ def run_case(case):
                             discs.append(Disc("call2:missing", "__call__", "re-emitted class has %d __call__ methods" % len(call2)))
                         else:
                             _cmp_bodies(got, _strip_doc(call2[0].body), discs, "call2")
+                        # ... and as a method of its own (same kind, same name): emit.function from the merged description
+                        ir3 = parse.class_(cls, merge_inner_function="__call__")
+                        fn3 = ast.parse(to_code(emit.function(ir3, function_name="__call__", function_type="self"))).body[0]
+                        # (a different kind of definition: the final return is rebuilt from the return entry - `return` becomes
+                        # `return None`, `self.x` becomes `x` - so only the statements before it are compared)
+                        cut = lambda b: b[:-1] if b and isinstance(b[-1], ast.Return) else b
+                        _cmp_bodies(cut(got), cut(_strip_doc(fn3.body)), discs, "call3")
             else:
                 ft = case["first"] or "static"
                 node = emit.function(ir, function_name=kinds.FUNC_NAME, function_type=ft)
